@@ -179,6 +179,22 @@ def obligations(tier):
             feas = d_or(*[d_and(*[d_le(x[i], x[i + 1]) for i in range(p)], *[d_le(x[i + 1], x[i]) for i in range(p, n_ - 1)]) for p in range(n_)])
             return [("feasible: unimodal", feas)]
         add("unimodality_prox", f"n={n}", dict(v=(n,)), lambda I: px.unimodality_prox(I["v"]), claims_uni, dict(n=n), "unimodal output (feasibility)")
+    # ---------------------------------------------------------------------- a factor matrix keeps its shape under every operator reachable through
+    # proximal_operator (single-column matrices included: constrained CP at rank 1 hands those over), for all values
+    ops = dict(non_negative=True, l1_reg=0.3, l2_reg=0.4, l2_square_reg=0.2, unimodality=True, normalize=True, simplex=1.5, normalized_sparsity=1, soft_sparsity=1.2,
+               smoothness=0.7, monotonicity=True, hard_sparsity=1)
+    for kind, par in ops.items():
+        for shape in ((2, 1), (2, 2)):
+            add(f"proximal_operator({kind})", f"matrix {shape[0]}x{shape[1]}", dict(v=shape), lambda I, kind=kind, par=par: px.proximal_operator(I["v"], **{kind: par}),
+                lambda I, out, shape=shape: [("the result has the shape of the input", tuple(D.lift_array(out).shape) == shape)],
+                dict(operator=kind, shape=f"{shape[0]}x{shape[1]}"), "matrix in, matrix of the same shape out", check_domain=False)
+    # ====================================================================== bounded stand-in (never counted as proved): the proofs above are size-bounded
+    # (n <= 3, 4 thorough); the native survey compares every operator with an independent reference at lengths 1-8 and scales 1e-3 .. 1e3
+    from .c09 import BoundedOb
+    from . import e2e_native
+    obs.append(BoundedOb(f"{PID}/bounded/native survey: every operator against an independent reference at lengths 1-8", "tensorly.tenalg.proximal:*",
+                         lambda: e2e_native.c12(tier), dict(lengths="1-8", inputs="signed, all-negative, all-positive, ties and zeros", scales="1e-3, 1, 1e3"),
+                         "seed 0; tolerance 1e-9 relative to the scale; idempotence of projections; firm non-expansiveness on 60 pairs per operator", pid=PID))
     return obs
 
 
